@@ -82,6 +82,13 @@ class C05(Prop):
         zone = env.ZONES[env.sig("zone", i) % len(env.ZONES)]
         clock.set_zone(zone)     # nothing in a broadcast depends on the host zone: durations are durations
         port = self.ports[i % len(self.ports)]
+        if (i // max(1, ctx["nshards"])) % 6 == 3:
+            # the same bridge object stopped and started again: broadcasts after a restart are as well-formed as before
+            await self.bridge.stop()
+            await asyncio.sleep(0)
+            await asyncio.sleep(0)
+            await self.bridge.start()
+            acc.count("bridge_restarts")
         sent = []                # (desc, datagram) in send order, exact repeats included
         for k in range(BATCH):
             j = i * BATCH + k
